@@ -8,6 +8,7 @@ import (
 	"strings"
 
 	"github.com/enbility/spine-go/internal/verifh/engine"
+	"github.com/enbility/spine-go/internal/verifh/world"
 	"github.com/enbility/spine-go/internal/verifrt/vtime"
 	"github.com/enbility/spine-go/model"
 )
@@ -189,12 +190,25 @@ func c02Type(sp *listSpec, ids []int, maxDepth int, r *engine.IResult) {
 							switch path {
 							case "remote", "remote-nopersist":
 								feats.remote.UpdateData(true, sp.fn, sp.fromRecs(state), nil, nil)
-								got, errT = feats.remote.UpdateData(path == "remote", sp.fn, sp.list(u.items), fp, fd)
+								updObj := sp.list(u.items)
+								updPhoto := world.JSON(updObj)
+								got, errT = feats.remote.UpdateData(path == "remote", sp.fn, updObj, fp, fd)
 								stored = feats.remote.DataCopy(sp.fn)
+								if now := world.JSON(updObj); now != updPhoto {
+									fail("applying an update modified the update data handed to the API (applying the same object again is then another update)", u, fmt.Sprintf("%s\n before=%s\n after=%s", ctx, updPhoto, now))
+									good = false
+								}
 							case "local":
 								feats.local.UpdateData(sp.fn, sp.fromRecs(state), nil, nil)
-								errT = feats.local.UpdateData(sp.fn, sp.list(u.items), fp, fd)
+								updObj := sp.list(u.items)
+								updPhoto := world.JSON(updObj)
+								errT = feats.local.UpdateData(sp.fn, updObj, fp, fd)
 								stored = feats.local.DataCopy(sp.fn)
+								// "the same update" can only be applied again if applying it leaves it as it was
+								if now := world.JSON(updObj); now != updPhoto {
+									fail("applying an update modified the update data handed to the API (applying the same object again is then another update)", u, fmt.Sprintf("%s\n before=%s\n after=%s", ctx, updPhoto, now))
+									good = false
+								}
 							}
 						}); p != nil {
 							fail("UpdateData panics ("+path+")", u, fmt.Sprintf("%v | %s", p, ctx))
